@@ -398,6 +398,11 @@ def prop_circuit(case, ctx):
         kind = "nonfinite" if not finite[i, j] else "mismatch"
         bucket = f"{tag}:{gname}:{pname}" + (":batch" if batch else "") + \
             (":nonfinite" if kind == "nonfinite" else "")
+        if fw == "tf" and gname == "Squeezing2_phi0" and pname == "r" and theta[j] == 0.0 \
+                and J[i, j] == 0.0:
+            # known finding: at r = 0 exactly TensorFlow returns a zero derivative through
+            # the polar / Takagi step of the Euler decomposition (degenerate point)
+            bucket = f"{tag}:Squeezing2_phi0:r:zero-derivative-at-r-equal-0"
         raise Violation(
             bucket,
             f"{_fmt_circ(circ)} theta={theta}: d {labels[i]} / d {gname}.{pname} "
@@ -656,8 +661,14 @@ def prop_gaussian(case, ctx):
     t = sorted([0.0] + [math.tanh(abs(r)) for r, _p in case["sq"]])
     gap = min(b - a for a, b in zip(t, t[1:]))
     scale = max(float(np.max(np.abs(J_fd))), abs(p0))
-    tol = ATOL + RTOL * np.abs(J_fd) + (4.0 * EPS_EIG / max(gap, 1e-3) ** 2 * scale
-                                        if gap > 0 else np.inf)
+    # NOTE (correction after a false alarm in the thorough tier): the moduli {0, tanh r_i}
+    # bound the eigenvalue gaps only before the beamsplitters mix the modes; afterwards
+    # pairs as close as ~0.015 occur and the rule's own documented broadening then costs
+    # up to eps/|D|^2 ~ 4e-3 of the Jacobian scale (measured on the pristine tree: worst
+    # 2e-4 of the scale over 1100 cases).  The library documents the broadening, so this is
+    # not asserted as a defect: entries are compared to 2 % of the Jacobian scale, which
+    # still separates structural errors (dropped conjugate: 10-100 % of the scale).
+    tol = ATOL + RTOL * np.abs(J_fd) + max(4.0 * EPS_EIG / max(gap, 1e-3) ** 2, 2e-2) * scale
     err = np.where(np.isfinite(J), np.abs(J - J_fd), np.inf)
     bad = err > tol
     if not bad.any():
@@ -891,7 +902,8 @@ def prop_perm(case, ctx):
     Gs = np.asarray(F["vmap_" + part](jnp.asarray(As), jr, jc))
     for b in range(len(As)):
         Gb, Sb = perm_analytic_grad(As[b], rows, cols, exact=total <= 8)
-        compare(Gs[b], fac * Gb, 1e-9 * (1.0 + Sb), "vmap-vs-analytic",
+        compare(Gs[b], fac * Gb, 1e-9 * (1.0 + np.maximum(Sb, float(np.max(np.abs(Gb))))),
+                "vmap-vs-analytic",
                 f"vmap(grad {part} perm)[{b}]")
     # Jacobians: holomorphic, or of the stacked (Re, Im) output (vmap over cotangents)
     if odd:
